@@ -38,6 +38,9 @@ rule("C12.e", "a duration / rate in main time units is never compared with a pur
               "grid steps", floor=1, props=["C12", "C06"])
 rule("C08.e", "the take right-hand side is value / period length x covered step lengths (time degree 0)", floor=1)
 
+rule("C12.n", "Asset.make_vector with convert=True returns volume per step on every path: each way a value can be given (number, array, name of a "
+              "series, interval dictionary) ends in the one place where the rate meets the step lengths - no branch returns its vector before that",
+     floor=1, props=["C12", "C02"])
 rule("C12.m", "what accumulates over time is accumulated with the step lengths inside: cumsum(rate x dt ...), a suffix sum of cost x dt x discount. "
               "The step-length vector never multiplies a cumulated vector from outside (dt_i x sum_j z_j is sum_j dt_j z_j only when all steps are "
               "equally long: holding costs of a storage on a monthly grid, across a daylight-saving switch)", floor=1, props=["C12", "C05", "C02"])
@@ -71,7 +74,7 @@ rule("C16.l", "scaled asset: what it adds to the cost vector - the fix costs of 
               "units (time degree 0), like every other entry of c; not rate x number of steps", floor=1)
 
 
-@analysis("degrees", ["C12.a", "C02.a", "C02.b", "C12.c", "C19.d", "C08.e", "C12.e", "C20.j", "C12.f", "C12.k", "C12.h", "C12.i", "C16.l", "C06.o", "C12.l", "C12.m"])
+@analysis("degrees", ["C12.a", "C02.a", "C02.b", "C12.c", "C19.d", "C08.e", "C12.e", "C20.j", "C12.f", "C12.k", "C12.h", "C12.i", "C16.l", "C06.o", "C12.l", "C12.m", "C12.n"])
 def run(ctx):
     p = ctx.p
     summaries = {}
@@ -429,3 +432,23 @@ def run(ctx):
         # cumulation statements without an outer product (the common form): dt must be inside when the operand carries a rate
     if n_m == 0:
         ctx.ob("C12.m", "package", "products with a cumulated factor", True, ok_detail="no product of a step-length vector with a cumulated vector")
+
+
+    # ================================================================= C12.n every branch of make_vector reaches the conversion
+    mvn = p.fn_opt("Asset.make_vector")
+    if mvn is None:
+        ctx.ob("C12.n", "Asset", "make_vector", None, "Asset.make_vector not found")
+    else:
+        conv = [st for st in au.walk_stmts(mvn.body) if isinstance(st, ast.If) and "convert" in au.names_in(st.test)]
+        if not conv:
+            ctx.ob("C12.n", mvn, "conversion rate -> volume", None, "no `if convert:` found")
+        else:
+            early = [r for r in au.walk_stmts(mvn.body) if isinstance(r, ast.Return) and r.lineno < conv[0].lineno and r.value is not None
+                     and not au.is_none(r.value) and not any(isinstance(a, ast.If) and au.none_test(a.test) is not None and any(r is b0 for b0 in au.walk_stmts(a.body))
+                                                             for a in p.ancestors(r))]
+            ctx.ob("C12.n", mvn, "every branch reaches `if convert:`", not early,
+                   "the branch at %s returns its vector before the conversion: a capacity given this way (%s) is used as a volume per step although it "
+                   "is a rate - with a step length other than one main time unit (15 min grid, main time unit 'min', daily grid) the limit is off by "
+                   "the step length, and re-expressing the rates in another unit changes value and dispatch (10630 in 'h', 2397 in 'min')" % (
+                       p.where(early[0]) if early else "", au.short(next((a.test for a in p.ancestors(early[0]) if isinstance(a, ast.If)), early[0]), 60) if early else ""),
+                   node=(early[0] if early else conv[0]))
